@@ -235,15 +235,39 @@ def main():
         if bad: print("VIOLATION property=%s replay=%s" % (pid, a.replay)); sys.exit(1)
         print("replay agrees on %d ops" % len(lines)); sys.exit(0)
 
+    known_printed = set()
+    def is_known(desc):
+        for k in known.get("known", []):
+            if k.get("property") == pid and re.search(k["match"], desc):
+                if k["match"] not in known_printed:
+                    print("KNOWN-FINDING: property=%s %s" % (pid, k.get("what", k["match"]))); known_printed.add(k["match"])
+                return True
+        return False
+    def run_lines(lines, label):
+        """run a batch; disagreements that match a listed known finding are reported as such and skipped
+        (the rest of the batch is still examined); returns the first unlisted disagreement as (path, bad) or None"""
+        for _ in range(20):
+            bad = run_batch(lines, label)
+            if not bad: return None
+            b = bad[0]
+            if is_known("%s | impl=%s | model=%s" % (b[1], b[2], b[3])):
+                # drop the history / line that exhibits the known finding and look at the rest
+                segs = segments(lines); pos = 0; keep = []
+                for sg in segs:
+                    if not (pos <= b[0] < pos + len(sg)): keep += sg
+                    pos += len(sg)
+                lines = keep
+                continue
+            return report(bad, lines)
+        return None
     found = None
     if driver_ok:
         batches = [("corpus", corpus_lines())]
         if hasattr(mod, "gen_ops"): batches.append(("generated", list(mod.gen_ops(rng, tier, ctx))))
         for label, lines in batches:
             if not lines: continue
-            bad = run_batch(lines, label)
-            if bad:
-                found = report(bad, lines); break
+            found = run_lines(lines, label)
+            if found: break
     # the same op stream against an AddressSanitizer build of the working tree (modules opt in with ASAN = True):
     # out-of-bounds reads/writes that leave the values intact are invisible to the comparison above
     if driver_ok and not found and getattr(mod, "ASAN", False):
@@ -257,8 +281,7 @@ def main():
         for label, lines in batches:
             if not lines or found: continue
             sub = lines if frac >= 1.0 or label == "corpus" else [l for i, l in enumerate(lines) if (i * 7919) % 1000 < frac * 1000 or l.startswith("@")]
-            bad = run_batch(sub, "asan-" + label)
-            if bad: found = report(bad, sub)
+            found = run_lines(sub, "asan-" + label)
         cov["asan_ops"] = True
         ctx.harness = plain; ctx.mod_env = env0
     # property-specific extra monitors (sanitizer builds, thread runs, compiled C++ programs, ...)
@@ -277,8 +300,7 @@ def main():
             r2 = random.Random("%s-search-%d-%d" % (pid, seed, s))
             lines = list(mod.gen_ops(r2, "thorough" if s > 1 else tier, ctx))
             if hasattr(mod, "search_ops"): lines = list(mod.search_ops(r2, ctx, proof_broken)) + lines
-            bad = run_batch(lines, "search")
-            if bad: found = report(bad, lines)
+            found = run_lines(lines, "search")
         cov["search_rounds"] = s
 
     cov["evaluations"] = evaluations; cov["distinct_nontrivial"] = len(distinct)
@@ -286,20 +308,13 @@ def main():
     cov["samples"] = samples; cov["ops_histogram"] = dict(stats)
     cov["proof_broken"] = proof_broken
 
-    def is_known(desc):
-        for k in known.get("known", []):
-            if k.get("property") == pid and re.search(k["match"], desc):
-                print("KNOWN-FINDING: property=%s %s" % (pid, k.get("what", k["match"]))); return True
-        return False
-
     code = 0
     if found:
         path, b = found
         desc = "%s | impl=%s | model=%s" % (b[1], b[2], b[3])
-        if not is_known(desc):
-            violations.append(desc)
-            print("DISAGREE: %s\n  impl : %s\n  model: %s" % (b[1][:400], b[2][:400], b[3][:400]))
-            print("VIOLATION property=%s replay=%s" % (pid, path)); code = 1
+        violations.append(desc)
+        print("DISAGREE: %s\n  impl : %s\n  model: %s" % (b[1][:400], b[2][:400], b[3][:400]))
+        print("VIOLATION property=%s replay=%s" % (pid, path)); code = 1
     for desc, path in extra_v:
         if not is_known(desc):
             violations.append(desc); print("VIOLATION property=%s replay=%s" % (pid, path)); code = 1
